@@ -44,6 +44,7 @@ type Result struct {
 	S0, S1   simfs.Snap
 	Leaked   []string
 	Sim      *simfs.Sim
+	ValidPDF map[string]bool // failed runs only: new *.pdf path -> validates
 }
 
 var scratchBase string
@@ -163,5 +164,16 @@ func Run(cfg Config, opt Options) (*Result, error) {
 	r.Events = sim.Events
 	r.Fired = sim.Fired
 	r.S1 = simfs.TakeSnap(root)
+	if r.Err != nil || r.Panicked {
+		// classify new PDF files: complete (validates) or not; needed to tell a completed earlier
+		// output from a partial one
+		r.ValidPDF = map[string]bool{}
+		for k, e := range r.S1 {
+			if e0, old := r.S0[k]; (old && simfs.SameEntry(e0, e)) || e.Type != "file" || filepath.Ext(k) != ".pdf" {
+				continue
+			}
+			r.ValidPDF[k] = api.ValidateFile(filepath.Join(root, k), nil) == nil
+		}
+	}
 	return r, nil
 }
